@@ -116,6 +116,9 @@ func (g *Gen) callMods(fc *FnCtx, caller *ssa.Function, c *ssa.CallCommon) *ModS
 		key := typeKey(c.Value.Type()) + "." + c.Method.Name()
 		if sp := g.specs.Funcs[key]; sp != nil {
 			g.specMods(fc, sp, ms)
+			for _, im := range g.implementers(c) {
+				ms.add(g.fnMods(fc, im.fn))
+			}
 			return ms
 		}
 		ms.All = true
@@ -149,6 +152,7 @@ func (g *Gen) callMods(fc *FnCtx, caller *ssa.Function, c *ssa.CallCommon) *ModS
 type pointMod struct {
 	names []string
 	key   *SExpr
+	cond  *SExpr
 	text  string
 }
 
@@ -156,6 +160,17 @@ type pointMod struct {
 func (g *Gen) pointMods(fc *FnCtx, sp *FuncSpec) []pointMod {
 	var out []pointMod
 	for _, e := range sp.Modifies {
+		var cond *SExpr
+		full := e
+		if j := strings.Index(e, " if "); j > 0 {
+			c, err := parseSExpr(strings.TrimSpace(e[j+4:]))
+			if err != nil {
+				fc.errs = append(fc.errs, "modifies "+e+": "+err.Error())
+				continue
+			}
+			cond = c
+			e = strings.TrimSpace(e[:j])
+		}
 		i := strings.Index(e, "[")
 		if i < 0 || !strings.HasSuffix(e, "]") {
 			continue
@@ -165,18 +180,37 @@ func (g *Gen) pointMods(fc *FnCtx, sp *FuncSpec) []pointMod {
 			fc.errs = append(fc.errs, "modifies "+e+": "+err.Error())
 			continue
 		}
-		out = append(out, pointMod{names: g.modEntryNames(fc, sp, strings.TrimSpace(e[:i])), key: k, text: e})
+		out = append(out, pointMod{names: g.modEntryNames(fc, sp, strings.TrimSpace(e[:i])), key: k, cond: cond, text: full})
 	}
 	return out
 }
 
 func (g *Gen) specMods(fc *FnCtx, sp *FuncSpec, ms *ModSet) { g.specModsP(fc, sp, ms, true) }
 
+func (g *Gen) freshMods(fc *FnCtx, sp *FuncSpec) []string {
+	var out []string
+	for _, e := range sp.Modifies {
+		if strings.HasPrefix(e, "new ") {
+			out = append(out, g.modEntryNames(fc, sp, strings.TrimSpace(e[4:]))...)
+		}
+	}
+	return out
+}
+
 func (g *Gen) specModsP(fc *FnCtx, sp *FuncSpec, ms *ModSet, includePoint bool) {
 	for _, e := range sp.Modifies {
+		if strings.HasPrefix(e, "new ") {
+			if !includePoint {
+				continue
+			}
+			e = strings.TrimSpace(e[4:])
+		}
 		if e == "*" {
 			ms.All = true
 			continue
+		}
+		if j := strings.Index(e, " if "); j > 0 {
+			e = strings.TrimSpace(e[:j])
 		}
 		if i := strings.Index(e, "["); i >= 0 && strings.HasSuffix(e, "]") {
 			if !includePoint {
@@ -193,11 +227,21 @@ func (g *Gen) specModsP(fc *FnCtx, sp *FuncSpec, ms *ModSet, includePoint bool) 
 
 // fnMods: inferred modifies set of a function (array-name granularity).
 func (g *Gen) fnMods(fc *FnCtx, fn *ssa.Function) *ModSet {
+	if sp := g.specFor(fn); sp != nil && sp.Model != "" {
+		if mf := g.fnByName[sp.Model]; mf != nil {
+			return g.fnMods(fc, mf)
+		}
+	}
 	if sp := g.specFor(fn); sp != nil && sp.HasMod {
 		ms := newModSet()
 		g.specMods(fc, sp, ms)
 		return ms
 	}
+	return g.bodyMods(fc, fn)
+}
+
+// bodyMods: the modifies set inferred from the body (callees by their declared or inferred sets).
+func (g *Gen) bodyMods(fc *FnCtx, fn *ssa.Function) *ModSet {
 	key := fn
 	if ms, ok := fc.modMemo[key]; ok {
 		return ms
@@ -382,11 +426,35 @@ func (fr *Frame) call(in ssa.Instruction, c *ssa.CallCommon, b *ssa.BasicBlock, 
 		key := typeKey(c.Value.Type()) + "." + c.Method.Name()
 		fr.safety("nil", sNot(sEq(recv.Sub[0].S, "0")), b, in)
 		if sp := fc.g.specs.Funcs[key]; sp != nil {
+			// dynamic dispatch over the implementers that have their own contract; the interface contract covers the rest
+			var sts []*State
+			var conds []string
+			var vals []Val
+			rest := guard
+			for _, im := range fc.g.implementers(c) {
+				is := sEq(recv.Sub[0].S, fc.typeID(im.recvT))
+				gi := sAnd(guard, is)
+				rest = sAnd(rest, sNot(is))
+				all := append([]Val{{T: im.recvT, S: recv.Sub[1].S}}, args...)
+				r, st2 := fr.applyContract(im.sp, im.fn, fnName(im.fn), im.sp.paramNames(im.fn, im.fn.Signature, false), all, resT, im.fn.Signature, b, st, gi, in)
+				sts = append(sts, st2)
+				conds = append(conds, is)
+				vals = append(vals, r)
+			}
 			names := sp.paramNames(nil, sig, true)
 			all := append([]Val{recv}, args...)
-			r, st2 := fr.applyContract(sp, nil, key, names, all, resT, sig, b, st, guard, in)
-			setRes(r)
-			return st2
+			r, st2 := fr.applyContract(sp, nil, key, names, all, resT, sig, b, st, rest, in)
+			if len(sts) == 0 {
+				setRes(r)
+				return st2
+			}
+			sts = append(sts, st2)
+			conds = append(conds, "true")
+			vals = append(vals, r)
+			if kindOf(resT) != KTuple || resT.(*types.Tuple).Len() > 0 {
+				setRes(fr.nameVal(fr.mergeVals(resT, vals, conds), "dispatch"))
+			}
+			return fc.mergeStates(sts, conds)
 		}
 		return fr.havocCall(in, key, args, resT, nil, b, st, guard, setRes)
 	}
@@ -496,6 +564,15 @@ func (fr *Frame) staticCall(in ssa.Instruction, fn *ssa.Function, mc *ssa.MakeCl
 	fc := fr.fc
 	sp := fc.g.specFor(fn)
 	name := fnName(fn)
+	if sp != nil && sp.Model != "" {
+		mf := fc.g.fnByName[sp.Model]
+		if mf == nil || mf.Blocks == nil {
+			fc.errs = append(fc.errs, "model function "+sp.Model+" for "+name+" not found")
+		} else {
+			fc.note("library function " + name + " replaced by its Go model " + sp.Model + " (assumed equivalent)")
+			return fr.inline(in, mf, nil, args, resT, b, st, guard, setRes)
+		}
+	}
 	if fr.shouldInline(fn, sp) && fn.Blocks != nil && len(findLoops(fn)) == 0 {
 		return fr.inline(in, fn, mc, args, resT, b, st, guard, setRes)
 	}
@@ -729,7 +806,7 @@ func (fr *Frame) applyContract(sp *FuncSpec, fn *ssa.Function, name string, pnam
 			continue
 		}
 		f := env.bool(c.Expr)
-		if fr.isTop && fc.spec != nil {
+		if fc.spec != nil {
 			tags := c.Tags
 			fc.addOblig(&Oblig{Name: fmt.Sprintf("%s/requires#%d@%s#%d", fc.spec.Name, c.Ord, name, occ), Kind: "requires@call", Tags: unionTags(tags, fc.spec.Tags), goal: sImp(guard, f), Text: name + " requires " + c.Text, Spec: c})
 		}
@@ -788,6 +865,12 @@ func (fr *Frame) applyContract(sp *FuncSpec, fn *ssa.Function, name string, pnam
 		nst = st.havocSet(set)
 	}
 	if sp.HasMod {
+		for _, n := range fc.g.freshMods(fc, sp) {
+			fv := fc.freshName(n + "@nw")
+			fc.declareConst(fv, fc.sorts[n])
+			fc.define(fmt.Sprintf("(forall ((q!r Int)) (! (=> (<= q!r %s) (= (select %s q!r) (select %s q!r))) :pattern ((select %s q!r))))", st.get("$top"), sym(fv), st.get(n), sym(fv)))
+			nst = nst.setRaw(n, sym(fv))
+		}
 		for _, pm := range fc.g.pointMods(fc, sp) {
 			kv := env.tr(pm.key)
 			k := kv.S
@@ -800,7 +883,12 @@ func (fr *Frame) applyContract(sp *FuncSpec, fn *ssa.Function, name string, pnam
 				vs := strings.TrimSuffix(srt[strings.Index(srt[7:], " ")+8:], ")")
 				fv := fc.freshName(n + "@pt")
 				fc.declareConst(fv, vs)
-				nst = nst.store(n, sx("store", st.get(n), k, sym(fv)))
+				cur := nst.get(n)
+				upd := sx("store", cur, k, sym(fv))
+				if pm.cond != nil {
+					upd = sIte(env.bool(pm.cond), upd, cur)
+				}
+				nst = nst.store(n, upd)
 			}
 		}
 	}
@@ -835,7 +923,7 @@ func (fr *Frame) applyContract(sp *FuncSpec, fn *ssa.Function, name string, pnam
 		}
 	}
 	for _, c := range sp.Ensures {
-		if !fc.modeOK(c) {
+		if !fc.modeOK(c) || c.Local {
 			continue
 		}
 		f := eenv.bool(c.Expr)
@@ -1098,4 +1186,31 @@ func (fr *Frame) clobberAddrArgs(c *ssa.CallCommon, st *State) *State {
 		st = fc.storeVal(st, ad, pt, v)
 	}
 	return st
+}
+
+type implRec struct {
+	fn    *ssa.Function
+	sp    *FuncSpec
+	recvT types.Type
+}
+
+// implementers: zapx methods with a contract that can be the target of this interface call.
+func (g *Gen) implementers(c *ssa.CallCommon) []implRec {
+	iface, ok := c.Value.Type().Underlying().(*types.Interface)
+	if !ok {
+		return nil
+	}
+	var out []implRec
+	for _, name := range g.specs.Order {
+		sp := g.specs.Funcs[name]
+		fn := g.fnByName[name]
+		if fn == nil || fn.Signature.Recv() == nil || fn.Name() != c.Method.Name() || sp.Trusted {
+			continue
+		}
+		rt := fn.Signature.Recv().Type()
+		if types.Implements(rt, iface) {
+			out = append(out, implRec{fn, sp, rt})
+		}
+	}
+	return out
 }
